@@ -10,6 +10,22 @@ NOTE = ("Trusted: Coq 8.16.1 kernel (vm_compute, no native_compute), no axioms d
         "the model (tolerance 1e-9 in the correspondence); numpy/pandas/dags behaviour is modelled, not verified.")
 
 CLAIMS = {
+    "C07": dict(
+        text="Theorems: the entry used is the most recent one on or before the date; it is constant between change dates; "
+             "validity intervals are inclusive; val_eqb is Leibniz equality. Obligations regenerated every run and discharged by "
+             "vm_compute: an EXHAUSTIVE sweep over every calendar day 1980-01-01 .. one year after the last entry showing the whole "
+             "model environment (all parameters, deviations, vorjahr/jahresanfang look-ups, schedules, rounding, function selection) "
+             "is constant within each date class; at most one implementation per name; civil<->ordinal round trip. The hand-written "
+             "loader model is tied to the code by U5 (every leaf of set_up_policy_environment vs the model).",
+        technique="Coq proof + exhaustive vm_compute day sweep on regenerated YAML/registry + differential correspondence U5",
+        design="6/C07"),
+    "C10": dict(
+        text="Theorems for every base>0, offset and value: rounded-offset is on the grid; direction inequalities for up/down/nearest; "
+             "error below one step; grid points are fixed points. Obligation regenerated every run: for every group and date class the "
+             "loaded specification equals the YAML entry in force incl. to_add_after_rounding and is well formed. Engine-level "
+             "'exactly once / off = identity / missing spec is an error' are tied by differential runs of the real engine (T1-T3).",
+        technique="Coq proof (Rounding.v) + reflective vm_compute obligation on regenerated YAML + differential engine runs",
+        design="6/C10"),
     "C18": dict(
         text="Theorems (for all schedules and all rational arguments): the model of piecewise_polynomial returns the "
              "mathematical value at every finite point, thresholds included; reflective shape checkers (zero below, "
